@@ -156,6 +156,15 @@ def ylm_closed(l, m, th, ph):
     raise ValueError
 
 
+def close(a, b, atol):
+    """absolute agreement scaled by the size of the data (np.allclose's default rtol=1e-5 would hide single-precision errors)"""
+    a, b = np.asarray(a), np.asarray(b)
+    if a.shape != b.shape:
+        return False
+    scale = max(1.0, float(np.abs(b).max())) if b.size else 1.0
+    return bool(np.all(np.abs(a - b) <= atol * scale))
+
+
 def judge(L, seed):
     from chmpy.shape.sht import SHT
     nrng = np.random.default_rng(seed)
@@ -183,35 +192,48 @@ def judge(L, seed):
     if L >= 1:
         v = sht.synthesis(cc)
         back = sht.analysis(v)
-        if not np.allclose(back, cc, atol=tol):
+        if not close(back, cc, atol=tol):
             return f"L={L}: complex analysis(synthesis(c)) != c (max dev {np.abs(back - cc).max():.3g})"
-        if not np.allclose(sht.synthesis(back), v, atol=tol * 10):
+        if not close(sht.synthesis(back), v, atol=tol * 10):
             return f"L={L}: complex synthesis(analysis(v)) != v on the grid"
     vr = sht.synthesis(cr)
     if np.iscomplexobj(vr) and np.abs(vr.imag).max() > tol:
         return f"L={L}: real synthesis returned complex values"
     backr = sht.analysis(np.real(vr))
-    if not np.allclose(backr, cr, atol=tol):
+    if not close(backr, cr, atol=tol):
         return f"L={L}: real analysis(synthesis(c)) != c (max dev {np.abs(backr - cr).max():.3g})"
+    # the same samples held in a narrower type are the same samples: their analysis is the analysis of their exact values
+    v32 = np.real(vr).astype(np.float32)
+    for name, narrow in (("float32", v32), ("float16", np.real(vr).astype(np.float16)), ("int64", np.round(np.real(vr) * 64).astype(np.int64))):
+        if np.abs(narrow).max() == 0 or not np.all(np.isfinite(narrow.astype(np.float64))):
+            continue
+        a_n, a_w = sht.analysis(narrow), sht.analysis(narrow.astype(np.float64))
+        if not close(a_n, a_w, atol=tol):
+            return f"L={L}: analysis of {name} samples differs from the analysis of the same values as float64 by {np.abs(a_n - a_w).max():.3g}"
+    if L >= 1:
+        v64c = sht.synthesis(cc).astype(np.complex64)
+        a_n, a_w = sht.analysis(v64c), sht.analysis(v64c.astype(np.complex128))
+        if not close(a_n, a_w, atol=tol):
+            return f"L={L}: analysis of complex64 samples differs from the analysis of the same values as complex128 by {np.abs(a_n - a_w).max():.3g}"
     # real transform = complex transform on real input
     if L >= 1:
         full = sht.complete_coefficients(backr)
         cfull = sht.analysis(np.real(vr).astype(complex))
-        if not np.allclose(full, cfull, atol=tol):
+        if not close(full, cfull, atol=tol):
             return f"L={L}: complete_coefficients(real analysis) != complex analysis of the same real samples"
-        if not np.allclose(sht.power_spectrum(backr), sht.power_spectrum(full), atol=tol * 10):
+        if not close(sht.power_spectrum(backr), sht.power_spectrum(full), atol=tol * 10):
             return f"L={L}: power spectrum differs between the real and the complex coefficient layout"
     # cross-path agreement (only for moderate L: the Python loops are slow)
     if L <= 16:
-        if not np.allclose(sht.analysis_pure_python(np.real(vr)), backr, atol=tol) or not np.allclose(sht.synthesis_pure_python(cr), np.real(vr), atol=tol * 10):
+        if not close(sht.analysis_pure_python(np.real(vr)), backr, atol=tol) or not close(sht.synthesis_pure_python(cr), np.real(vr), atol=tol * 10):
             return f"L={L}: pure-Python real path disagrees with the compiled kernels"
-        if L >= 1 and (not np.allclose(sht.analysis_pure_python_cplx(sht.synthesis(cc)), cc, atol=tol) or not np.allclose(sht.synthesis_pure_python_cplx(cc), sht.synthesis(cc), atol=tol * 10)):
+        if L >= 1 and (not close(sht.analysis_pure_python_cplx(sht.synthesis(cc)), cc, atol=tol) or not close(sht.synthesis_pure_python_cplx(cc), sht.synthesis(cc), atol=tol * 10)):
             return f"L={L}: pure-Python complex path disagrees with the compiled kernels"
     # linearity and Parseval
     if L >= 1:
         d = nrng.normal(size=sht.nlm()) + 1j * nrng.normal(size=sht.nlm())
         a, b = 0.7 - 0.2j, -1.3 + 0.4j
-        if not np.allclose(sht.analysis(a * sht.synthesis(cc) + b * sht.synthesis(d)), a * cc + b * d, atol=tol * 5):
+        if not close(sht.analysis(a * sht.synthesis(cc) + b * sht.synthesis(d)), a * cc + b * d, atol=tol * 5):
             return f"L={L}: analysis is not linear"
         f, g = sht.synthesis(cc), sht.synthesis(d)
         quad = np.sum(sht.weights[:, None] * f * np.conj(g)) / sht.nphi
@@ -245,6 +267,18 @@ def judge(L, seed):
             gotr = sht.evaluate_at_points(cr, th, ph)
             if abs(gotr - wantr) > tol * 1000 * (1 + abs(wantr)):
                 return f"L={L}: evaluate_at_points (real) at theta={th!r}, phi={ph!r} gives {gotr!r}, the expansion in orthonormal harmonics is {wantr!r}"
+            # a transform in between, then the same colatitude at another longitude: one object serves all three calls
+            sht.analysis(np.real(vr))
+            if L >= 1:
+                sht.synthesis(cc)
+            ph2 = ph + 1.0
+            want2 = sum(cc[l * (l + 1) + m] * sph_harm_y(l, m, th, ph2) for l in range(L + 1) for m in range(-l, l + 1))
+            got2 = sht.evaluate_at_points(cc, th, ph2)
+            want2r = sum(full[l * (l + 1) + m] * sph_harm_y(l, m, th, ph2) for l in range(L + 1) for m in range(-l, l + 1))
+            got2r = sht.evaluate_at_points(cr, th, ph2)
+            if abs(got2 - want2) > tol * 1000 * (1 + abs(want2)) or abs(got2r - want2r) > tol * 1000 * (1 + abs(want2r)):
+                return (f"L={L}: evaluate_at_points at theta={th!r}, phi={ph2!r}, asked after a transform that followed an evaluation at the same theta, "
+                        f"gives {got2!r} / {got2r!r}; the expansion in orthonormal harmonics is {want2!r} / {want2r!r}")
     # convention: samples of Y_lm analyse to the unit vector at l(l+1)+m
     if L >= 2:
         th, ph = sht.grid
@@ -252,7 +286,7 @@ def judge(L, seed):
             c = sht.analysis(ylm_closed(l, m, th, ph).astype(complex))
             want = np.zeros(sht.nlm(), dtype=complex)
             want[l * (l + 1) + m] = 1.0
-            if not np.allclose(c, want, atol=tol * 10):
+            if not close(c, want, atol=tol * 10):
                 return f"L={L}: samples of the orthonormal Condon-Shortley Y_{l},{m} do not analyse to a unit coefficient at index l(l+1)+m"
     return None
 
